@@ -102,7 +102,7 @@ func WorkerMain(args []string) int {
 	journal := args[5]
 	debug.SetMaxStack(24 << 20)
 	if os.Getenv("VERIF_NO_RLIMIT") == "" {
-		lim := syscall.Rlimit{Cur: 6 << 30, Max: 6 << 30}
+		lim := syscall.Rlimit{Cur: 2 << 30, Max: 2 << 30}
 		syscall.Setrlimit(syscall.RLIMIT_AS, &lim)
 	}
 	chk := Get(id)
@@ -198,7 +198,7 @@ func selfExe() string {
 func (rs *runState) runShard(sp *Space, lo, hi int) {
 	caseTO := sp.CaseTimeout
 	if caseTO == 0 {
-		caseTO = 20 * time.Second
+		caseTO = 10 * time.Second
 	}
 	for lo < hi {
 		if time.Now().After(rs.deadline) {
